@@ -131,6 +131,8 @@ pub struct AppView {
     pub queue: Vec<EntryV>,
     pub applied: u64,
     pub sm: String,
+    #[serde(rename = "hasProbe")]
+    pub has_probe: bool,
     pub conf: ConfV,
     pub incarnation: u64,
 }
@@ -443,6 +445,7 @@ impl Cluster {
                 .map(|(k, p)| format!("{}:{}", k, p))
                 .collect::<Vec<_>>()
                 .join(","),
+            has_probe: a.sm.iter().any(|(_, p)| p == "zz"),
             conf: hist_conf_at(&a.conf_hist, a.applied),
             incarnation: a.incarnation,
         }
